@@ -348,6 +348,10 @@ pub fn run(out: &mut Out, tier: &str, seed: u64, scratch: &str) {
     render_long(out);
     let files = corpus::files();
     let mut inputs: Vec<(String, String)> = Vec::new(); // (origin, source)
+    // minimised past failures run first
+    inputs.push(("regress:python-import-not-an-identifier".into(), "import python \"rfrom equests\" as pyreq\n\ndef main() -> None:\n    pass\n".into()));
+    inputs.push(("regress:float-literal-overflows-to-infinity".into(), "def main() -> None:\n    x = 0.5e980\n    y = -1e999\n    match x:\n        1e999 => pass\n        _ => pass\n".into()));
+    inputs.push(("regress:generic-type-nesting".into(), format!("def f(x: {}int{}) -> None:\n    pass\n", "List[".repeat(40), "]".repeat(40))));
     for (name, src) in &files {
         inputs.push((format!("file:{name}"), src.clone()));
         // truncations at character boundaries
